@@ -146,9 +146,11 @@ fn oracle(c: &Case, rec: &Rec) -> R {
             let pay = matches!(c.kind, ZKind::PayAtom(_));
             let img = if pay { &h.pay_img } else { &h.est_img };
             let idxs = replaceable(img);
-            let ai = idxs[*i % idxs.len()];
+            // even selector: unrelated replacement; odd selector: the negated element / scalar
+            let ai = idxs[(*i / 2) % idxs.len()];
             let a = &img.atoms[ai];
-            let Some(bytes) = change_atom(img, ai, &AtomChange::Shift(ScSpec::Rand(c.seed ^ (*i as u64) << 8))) else { return Ok(()) };
+            let change = if *i % 2 == 0 { AtomChange::Shift(ScSpec::Rand(c.seed ^ (*i as u64) << 8)) } else { AtomChange::Negate };
+            let Some(bytes) = change_atom(img, ai, &change) else { return Ok(()) };
             let base = if pay { h.pay_prover_ch } else { h.est_prover_ch };
             let got = if pay { pay_challenge(&h.m, h.amt, &h.nonce_bytes, &bytes, &ctx) } else { est_challenge(&h.m, &h.cid, h.cb, h.mb, &bytes, &ctx) };
             let ty = if pay { "PayProof" } else { "EstablishProof" };
@@ -265,7 +267,7 @@ fn gen(ctx: &Ctx) -> Vec<Case> {
     for s in 0..est_seeds {
         let seed = base + s;
         out.push(Case { seed, kind: ZKind::Agreement });
-        let n = replaceable(&honest(seed).est_img).len();
+        let n = 2 * replaceable(&honest(seed).est_img).len();
         for i in 0..n {
             out.push(Case { seed, kind: ZKind::EstAtom(i) });
         }
@@ -275,7 +277,7 @@ fn gen(ctx: &Ctx) -> Vec<Case> {
     }
     for s in 0..pay_seeds {
         let seed = base + s;
-        let n = replaceable(&honest(seed).pay_img).len();
+        let n = 2 * replaceable(&honest(seed).pay_img).len();
         for i in 0..n {
             out.push(Case { seed, kind: ZKind::PayAtom(i) });
         }
